@@ -226,8 +226,9 @@ class TestResult(unittest.TestResult):
         self._tags = TagContext(self._tags)
 
     def stopTest(self, test):
-        # NOTE: In Python 3.12.1 skipped tests may not call startTest()
-        if self._tags is not None:
+        # NOTE: In Python 3.12.1 skipped tests may not call startTest(), in
+        # which case there is no test-local context to leave.
+        if self._tags.parent is not None:
             self._tags = self._tags.parent
         super().stopTest(test)
 
@@ -1599,8 +1600,9 @@ class ExtendedToOriginalDecorator:
         self.shouldStop = True
 
     def stopTest(self, test):
-        # NOTE: In Python 3.12.1 skipped tests may not call startTest()
-        if self._tags is not None:
+        # NOTE: In Python 3.12.1 skipped tests may not call startTest(), in
+        # which case there is no test-local context to leave.
+        if self._tags.parent is not None:
             self._tags = self._tags.parent
         return self.decorated.stopTest(test)
 
@@ -1663,8 +1665,9 @@ class ExtendedToStreamDecorator(CopyStreamResult, StreamSummary, TestControl):
         self._tags = TagContext(self._tags)
 
     def stopTest(self, test):
-        # NOTE: In Python 3.12.1 skipped tests may not call startTest()
-        if self._tags is not None:
+        # NOTE: In Python 3.12.1 skipped tests may not call startTest(), in
+        # which case there is no test-local context to leave.
+        if self._tags.parent is not None:
             self._tags = self._tags.parent
 
     def addError(self, test, err=None, details=None):
